@@ -234,8 +234,15 @@ func runConv(c *Ctx) {
 			}
 			if name == "time.Parse" {
 				n++
-				l, _ := cs.Common().Args[0].(*ssa.Const)
-				c.Check(l != nil && layouts[constString2(l)], key, cs.Pos(), "time layout is one of the two documented ones")
+				// the layout is a literal, or one element of a local table of literals that is tried in a loop
+				set, ok := stringConstsOf(cs.Common().Args[0], 0)
+				good := ok && len(set) > 0
+				for l := range set {
+					if !layouts[l] {
+						good = false
+					}
+				}
+				c.Check(good, key, cs.Pos(), "time layout is one of the two documented ones")
 			}
 		}
 	}
@@ -307,4 +314,81 @@ func runConv(c *Ctx) {
 		}
 		c.Check(good && seen >= 2, "zero value "+name, fn.Pos(), "NULL and missing columns scan to the zero value without error")
 	}
+}
+
+// stringConstsOf: the string constants v can hold, when that is decidable: a constant, a phi of such, or an element of
+// a local array/slice literal all of whose element stores are constants. The constants are rendered as constString2 does.
+func stringConstsOf(v ssa.Value, depth int) (map[string]bool, bool) {
+	out := map[string]bool{}
+	if depth > 6 {
+		return nil, false
+	}
+	switch x := v.(type) {
+	case *ssa.Const:
+		out[constString2(x)] = true
+		return out, true
+	case *ssa.Phi:
+		for _, e := range x.Edges {
+			s, ok := stringConstsOf(e, depth+1)
+			if !ok {
+				return nil, false
+			}
+			for k := range s {
+				out[k] = true
+			}
+		}
+		return out, true
+	case *ssa.UnOp, *ssa.Index:
+		var base ssa.Value
+		if ix, ok := x.(*ssa.Index); ok {
+			// an element of an array value: `for _, l := range [...]string{a, b}` loads the whole array first
+			ld, ok := ix.X.(*ssa.UnOp)
+			if !ok || ld.Op != token.MUL {
+				return nil, false
+			}
+			base = ld.X
+		} else {
+			u := x.(*ssa.UnOp)
+			if u.Op != token.MUL {
+				return nil, false
+			}
+			ia, ok := u.X.(*ssa.IndexAddr)
+			if !ok {
+				return nil, false
+			}
+			base = ia.X
+		}
+		if sl, ok := base.(*ssa.Slice); ok {
+			base = sl.X
+		}
+		al, ok := base.(*ssa.Alloc)
+		if !ok {
+			return nil, false
+		}
+		for _, r := range *al.Referrers() {
+			switch y := r.(type) {
+			case *ssa.IndexAddr:
+				for _, rr := range *y.Referrers() {
+					if st, ok := rr.(*ssa.Store); ok && st.Addr == ssa.Value(y) {
+						s, ok := stringConstsOf(st.Val, depth+1)
+						if !ok {
+							return nil, false
+						}
+						for k := range s {
+							out[k] = true
+						}
+					}
+				}
+			case *ssa.Slice, *ssa.DebugRef:
+			case *ssa.UnOp:
+				if y.Op != token.MUL {
+					return nil, false
+				}
+			default:
+				return nil, false // the table escapes
+			}
+		}
+		return out, len(out) > 0
+	}
+	return nil, false
 }
